@@ -219,6 +219,13 @@ def run_file(rep, contract_mod, only=None, workers=None, verbose=False):
     results.sort(key=lambda r: r["name"])
     for r in results:
         _fold(rep, contract_mod, r, metas.get(r["name"], {}), verbose)
+    if rep.tier == "thorough" and os.environ.get("PYVC_CROSSCHECK", "1") != "0":
+        from . import replay as _rp
+        from concurrent.futures import ThreadPoolExecutor
+        todo = [r["name"] for r in results if not r.get("timeout") and "error" not in r
+                and metas.get(r["name"], {}).get("native", True) is not False]
+        with ThreadPoolExecutor(max_workers=8) as ex:
+            list(ex.map(lambda nm: _rp.cross_check(rep, contract_mod, nm, metas[nm]), todo))
     return results
 
 
